@@ -220,7 +220,8 @@ Fixpoint handed_sum (ops : list op) (vs : list oval) : Z :=
 
 (* Message.Reset re-arms the budget: the accounting below is per incarnation of the message
    (between two resets) *)
-Definition is_reset (o : op) : bool := match o with OReset _ => true | _ => false end.
+Definition is_reset (o : op) : bool :=
+  match o with OReset _ | OResetLimit _ | OUnread _ => true | _ => false end.   (* ops that re-arm or raise the budget *)
 Definition no_reset (ops : list op) : bool := forallb (fun o => negb (is_reset o)) ops.
 
 Lemma step_charge c fx m st o : 0 <= rs_rl st -> is_reset o = false ->
@@ -1083,4 +1084,64 @@ Example reset_default_refuted :
 Proof.
   cbv zeta. split; [repeat constructor; cbn; try lia; unfold maxSegmentSize; lia|].
   repeat split; vm_compute; reflexivity.
+Qed.
+
+(* non-vacuity (used by Properties_C02): the cyclic message walked with D = 3 *)
+Lemma cyclic_walk_bounded_example :
+  let c := mkCfg 4096 3 true true in
+  let r := root c cyc_msg 4096 in
+  let a := walkA c (mkFix true true true) cyc_msg 8 8 4 (snd r) (fst r) in
+  msg_ok cyc_msg /\ tree_nofuel (ac_val a) = true /\
+  ac_val a = TStruct [] [TComp 1 (mkOS 0 1) [TStruct [] [TErr]]] /\
+  deref_count (fst r) + ac_d a = 2 /\ deref_size (fst r) + ac_h a = 16.
+Proof.
+  split; [repeat constructor; cbn; try lia; unfold maxSegmentSize; lia|].
+  vm_compute. repeat split.
+Qed.
+
+(* ------------------------------------------------------------------ budget epochs *)
+(* The application can raise the budget itself: Message.ResetReadLimit (OResetLimit), Message.Unread
+   (OUnread), or reuse the message (OReset).  The budget is never negative whatever is called,
+   and between two such calls (a budget epoch) the read sizes handed out sum to at most the
+   budget the epoch started with. *)
+Lemma step_nonneg c fx m st o : 0 <= cfg_T c -> 0 <= rs_rl st -> 0 <= rs_rl (fst (step c fx m st o)).
+Proof.
+  intros HT Hr. destruct (is_reset o) eqn:E.
+  - destruct o; try discriminate E; cbn [step fst rs_rl].
+    + unfold reset_limit, defaultTraverseLimit. destruct fixed; [apply init_rlimit_nonneg; exact HT|lia].
+    + apply u64_range.
+    + apply u64_range.
+  - apply step_charge; assumption.
+Qed.
+
+Lemma run_nonneg c fx m : forall ops st, 0 <= cfg_T c -> 0 <= rs_rl st -> 0 <= rs_rl (fst (run c fx m st ops)).
+Proof.
+  induction ops as [|o ops IH]; intros st HT Hr; cbn [run]; [exact Hr|].
+  pose proof (step_nonneg c fx m st o HT Hr) as H. destruct (step c fx m st o) as [st1 v]. cbn [fst] in *.
+  specialize (IH st1 HT H). destruct (run c fx m st1 ops). exact IH.
+Qed.
+
+Definition budget_after (c : config) (before : Z) (o : op) : Z :=
+  match o with
+  | OReset fixed => reset_limit fixed c
+  | OResetLimit n => u64 n
+  | OUnread n => u64 (before + u32 n)
+  | _ => before
+  end.
+
+Theorem traversal_bound_epochs c fx m pre o inc : 0 <= cfg_T c -> is_reset o = true -> no_reset inc = true ->
+  let st_pre := fst (run c fx m (init_state c) pre) in
+  let st0 := fst (run c fx m (init_state c) (pre ++ [o])) in
+  let r := run c fx m st0 inc in
+  rs_rl st0 = budget_after c (rs_rl st_pre) o /\ 0 <= rs_rl st0 /\
+  0 <= rs_rl (fst r) /\
+  handed_sum inc (snd r) <= rs_rl st0 - rs_rl (fst r) /\
+  handed_sum inc (snd r) <= rs_rl st0.
+Proof.
+  intros HT Ho Hnr st_pre st0 r.
+  assert (0 <= rs_rl st0) as H0 by (apply run_nonneg; [exact HT|apply init_rlimit_nonneg; exact HT]).
+  pose proof (run_charge c fx m inc st0 H0 Hnr) as [H1 H2]. fold r in H1, H2.
+  split; [|split; [exact H0|split; [exact H1|split; lia]]].
+  subst st0. rewrite run_app. cbn [fst]. fold st_pre.
+  destruct o; try discriminate Ho; reflexivity.
 Qed.
